@@ -28,8 +28,11 @@ type task struct {
 	want   *sync.Mutex
 	site   string
 	sel    int // which select case the task looks at first after this release
-	parks  int // number of times parked (for spin detection)
-	spins  int // consecutive parks at a spin site
+	// granted: the scheduler released the task into the mutex it wanted (as
+	// opposed to the wake-up of everybody at teardown)
+	granted bool
+	parks   int // number of times parked (for spin detection)
+	spins   int // consecutive parks at a spin site
 }
 
 type ownerEnt struct {
@@ -246,8 +249,12 @@ func (s *Sched) park(want *sync.Mutex, site string) {
 			return
 		}
 		s.mu.Lock()
-		if s.ownerSlotLocked(want) == i {
+		if s.tasks[i].granted && s.ownerSlotLocked(want) == i {
 			// released by the scheduler, which recorded the ownership
+			// (not enough to look at the owner table: a task that wants a mutex it
+			// holds itself - a self-deadlock - is its owner too, and at teardown
+			// it must wait below, durably, instead of entering the real Lock)
+			s.tasks[i].granted = false
 			if anon {
 				// the slot is given back; the mutex stays owned (by nobody the table knows)
 				for j := range s.owners {
@@ -474,6 +481,7 @@ func (s *Sched) releaseSlot(slot int) {
 	t.parked = false
 	if t.want != nil {
 		s.setOwner(t.want, slot)
+		t.granted = true
 	}
 	w := t.wake
 	s.mu.Unlock()
